@@ -14,7 +14,7 @@
 Require Import Arith List Bool QArith Qcanon.
 From TK Require Import Mat_Sums Mat_Core Mat_Qc Mat_EigSelect Spectral_KyFan Pencil_Model Pencil_Spec
      Pencil_Proof_Sums Pencil_Proof Pencil_Proof_Rot Pencil_Proof_KyFan Pencil_Proof_Qc
-     EigSelect Pencil_Proof_Tie Pencil_Proof_Unique Pencil_Proof_Embed.
+     EigSelect Pencil_Proof_Tie Pencil_Proof_Unique Pencil_Proof_Embed Pencil_Proof_Scale.
 Import ListNotations.
 Local Open Scope F_scope.
 
@@ -491,3 +491,77 @@ Example model_nonvacuous :
   (exists lhs rhs, run_construct VF42 NPE 2 2 [[qz 1; qz 1]; [qz 0; qz 1]] wW [] = Ok (lhs, rhs)) /\
   (exists ml Yl, run_project 2 2 1 [[qz 1; qz 3]; [qz 2; qz (-1)]] [[qfrac 1 2]; [qz 4]] = Ok (ml, Yl)).
 Proof. exact (conj e_run e_run_project). Qed.
+
+(* ---------- 8. (Wave 2) homogeneity: the magnitude of the entries of W / L / D and the unit of the
+   features carry no meaning; the FULL returned tables ---------- *)
+(* peq p q := the two tables agree entrywise; pscale a b p := (a * lhs, b * rhs); sscale a W := every stored
+   entry times a; xscale s X := every feature value times s.  No hypothesis: no stored entry is ever
+   dropped, however small (an absolute cut-off in the accumulation loop falsifies these statements). *)
+Theorem npe_scale_equivariant :
+  forall (F : Type) (Fo : FieldOps F) (Ff : IsField F) N (X : mat F) (W : sparse F) (a s : F),
+    peq (npe_repaired (xscale s X) N (sscale a W)) (pscale (s * s * a) (s * s) (npe_repaired X N W)).
+Proof. exact (@npe_scale). Qed.
+Print Assumptions npe_scale_equivariant.
+
+Theorem lltsa_scale_equivariant :
+  forall (F : Type) (Fo : FieldOps F) (Ff : IsField F) N (X : mat F) (W : sparse F) (a s : F),
+    peq (lltsa_centred (xscale s X) N (sscale a W)) (pscale (s * s * a) (s * s) (lltsa_centred X N W)).
+Proof. exact (@lltsa_scale). Qed.
+Print Assumptions lltsa_scale_equivariant.
+
+Theorem lpp_scale_equivariant :
+  forall (F : Type) (Fo : FieldOps F) (Ff : IsField F) N (X : mat F) (L : sparse F) (dv : vec F) (a b s : F),
+    peq (lpp_repaired (xscale s X) N (sscale a L) (fun t => b * dv t))
+        (pscale (s * s * a) (s * s * b) (lpp_repaired X N L dv)).
+Proof. exact (@lpp_scale). Qed.
+Print Assumptions lpp_scale_equivariant.
+
+(* a solution of (A, B) is, renormalised, a solution of (c A, c B) with the same eigenvalues *)
+Theorem generalised_problem_scale_free :
+  forall (F : Type) (Fo : FieldOps F) (Ff : IsField F) D d (A B P : mat F) lam (c r : F),
+    r * r * c = 1 ->
+    gen_eig_solution D d A B P lam ->
+    gen_eig_solution D d (mscale c A) (mscale c B) (mscale r P) lam.
+Proof. exact (@gen_eig_solution_scale). Qed.
+Print Assumptions generalised_problem_scale_free.
+
+Theorem eigen_equation_scale_free :
+  forall (F : Type) (Fo : FieldOps F) (Ff : IsField F) D d (A B P : mat F) lam (c : F),
+    meq D d (mmul D A P) (mmul d (mmul D B P) (mdiag lam)) ->
+    meq D d (mmul D (mscale c A) P) (mmul d (mmul D (mscale c B) P) (mdiag lam)).
+Proof. exact (@eigen_equation_scale). Qed.
+Print Assumptions eigen_equation_scale_free.
+
+Example scale_nonvacuous :
+  @eq Qc (qfrac 1 2 * qfrac 1 2 * qz 4) 1 /\
+  gen_eig_solution 2 1 (npe_lhs 2 eX eW) (npe_rhs 2 eX) eV elam /\
+  meq 2 1 (mmul 2 (npe_lhs 2 eX eW) eV) (mmul 1 (mmul 2 (npe_rhs 2 eX) eV) (mdiag elam)).
+Proof. exact (conj e_scale_factor (conj e_solution (proj1 e_solution))). Qed.
+
+(* the decision procedure run on the FULL tables the implementation returns *)
+Theorem spec_full_decision_sound :
+  forall m N D Xl W dvl lhs rhs,
+    spec_full_b m N D Xl W dvl lhs rhs = true ->
+    wf_mat D D lhs /\ wf_mat D D rhs /\
+    is_pencil D (ref_lhs m N (mof Xl) W) (ref_rhs m N (mof Xl) (vof dvl))
+              {| p_lhs := mof lhs; p_rhs := mof rhs |}.
+Proof. exact spec_full_b_sound. Qed.
+Print Assumptions spec_full_decision_sound.
+
+Theorem model_output_meets_full_spec :
+  forall m N D Xl W dvl lhs rhs,
+    run_construct VF42 m N D Xl W dvl = Ok (lhs, rhs) ->
+    spec_full_b m N D Xl W dvl lhs rhs = true.
+Proof. exact model_meets_spec_full. Qed.
+Print Assumptions model_output_meets_full_spec.
+
+Theorem full_tables_before_f9_refuted :
+  exists lhs rhs, run_construct VShipped LPP 2 2 [[qz 1; qz 1]; [qz 0; qz 1]] wW [qz 1; qz 1] = Ok (lhs, rhs) /\
+                  spec_full_b LPP 2 2 [[qz 1; qz 1]; [qz 0; qz 1]] wW [qz 1; qz 1] lhs rhs = false.
+Proof. exact full_tables_refuted_before_f9. Qed.
+Print Assumptions full_tables_before_f9_refuted.
+
+Example full_spec_nonvacuous :
+  exists lhs rhs, run_construct VF42 LPP 2 2 [[qz 1; qz 1]; [qz 0; qz 1]] wW [qz 1; qz 1] = Ok (lhs, rhs) /\
+                  spec_full_b LPP 2 2 [[qz 1; qz 1]; [qz 0; qz 1]] wW [qz 1; qz 1] lhs rhs = true.
+Proof. exact e_run_full. Qed.
